@@ -108,9 +108,28 @@ fn run_matcher(name: &str, v: &Violation) -> bool {
         // C06: the input word (field "word") is one of the float spellings `inf`/`infinity`/`nan` in any
         // ASCII case and the check expected an identifier.
         "word_is_ascii_case_insensitive_inf_infinity_nan" => {
-            v.kind == "word-class"
-                && v.input["word"].as_str().map(is_inf_nan_word).unwrap_or(false)
-                && v.expected.starts_with("identifier")
+            if v.kind == "word-class" {
+                return v.input["word"].as_str().map(is_inf_nan_word).unwrap_or(false) && v.expected.starts_with("identifier");
+            }
+            // token-stream comparisons: every mismatching leaf is such a word read as the float it spells
+            match v.input["leaf_mismatches"].as_array() {
+                Some(ms) if !ms.is_empty() => ms.iter().all(|m| {
+                    let want = m[0].as_str().unwrap_or("");
+                    let got = m[1].as_str().unwrap_or("");
+                    match want.strip_prefix("ident:") {
+                        Some(w) if is_inf_nan_word(w) => {
+                            let l = w.to_ascii_lowercase();
+                            if l == "nan" {
+                                got == "Fnan"
+                            } else {
+                                got.starts_with("Finf#")
+                            }
+                        },
+                        _ => false,
+                    }
+                }),
+                _ => false,
+            }
         },
         _ => false,
     }
